@@ -6,6 +6,147 @@ pub mod text;
 pub mod lalr_diff;
 pub mod oset;
 
+/// Oracle self-tests: the reference models against published facts and against each other.
+/// Returns the list of failures (empty = all passed).
+pub fn selftest_failures() -> Vec<String> {
+    use crate::lr::{build_reference, Class};
+    use crate::model::cfg_from_text;
+    let mut fails = vec![];
+    if let Err(e) = crate::sha::self_test() {
+        fails.push(e);
+    }
+    // textbook automata: (grammar, canonical LR(1) states, LALR(1) states, class)
+    let book: [(&str, usize, usize, Class); 4] = [
+        ("E -> E + T | T ; T -> T * F | F ; F -> ( E ) | id", 22, 12, Class::Slr),
+        ("S -> L = R | R ; L -> * R | id ; R -> L", 14, 10, Class::LalrNotSlr),
+        ("S -> a E a | b E b | a F b | b F a ; E -> e ; F -> e", 14, 13, Class::Lr1NotLalr),
+        ("S -> C C ; C -> c C | d", 10, 7, Class::Slr),
+    ];
+    for (g, n_lr1, n_lalr, class) in book {
+        let (cfg, _, _, _) = cfg_from_text(g);
+        match build_reference(&cfg, 10_000) {
+            None => fails.push(format!("reference not built for {g}")),
+            Some(r) => {
+                if r.lr1.states.len() != n_lr1 || r.lalr.states.len() != n_lalr || r.class() != class {
+                    fails.push(format!(
+                        "{g}: LR(1) {} (expected {n_lr1}), LALR(1) {} (expected {n_lalr}), class {:?} (expected {class:?})",
+                        r.lr1.states.len(),
+                        r.lalr.states.len(),
+                        r.class()
+                    ));
+                }
+            }
+        }
+    }
+    // the three recognisers agree on all short strings of a few grammars
+    for (_, g) in crate::gen::CORPUS.iter().take(16) {
+        let (cfg, _, _, _) = cfg_from_text(g);
+        let Some(r) = build_reference(&cfg, 10_000) else { continue };
+        if r.lr1_conflict || cfg.nt == 0 {
+            continue;
+        }
+        let an = crate::lr::analyse(&cfg);
+        let all_productive = an.productive.iter().all(|p| *p);
+        let mut words: Vec<Vec<usize>> = vec![vec![]];
+        let mut level = vec![vec![]];
+        for _ in 0..5 {
+            let mut next = vec![];
+            for w in &level {
+                for t in 0..cfg.nt {
+                    let mut v: Vec<usize> = w.clone();
+                    v.push(t);
+                    next.push(v);
+                }
+            }
+            if next.len() > 400 {
+                break;
+            }
+            words.extend(next.iter().cloned());
+            level = next;
+        }
+        for w in &words {
+            let o = crate::lr::lr_parse(&r.ctx, &r.lr1, w, None);
+            let member = matches!(o, crate::lr::ParseOutcome::Accept(_));
+            if crate::chart::chart_member(&cfg, w) != member {
+                fails.push(format!("chart vs LR(1) disagree on {w:?} for {g}"));
+                break;
+            }
+            let e = crate::chart::earley(&cfg, w);
+            let ok = match (&e, &o) {
+                (crate::chart::Earley::Accept, crate::lr::ParseOutcome::Accept(_)) => true,
+                (crate::chart::Earley::Reject(a), crate::lr::ParseOutcome::Reject(b)) => !all_productive || a == b,
+                _ => false,
+            };
+            if !ok {
+                fails.push(format!("Earley {e:?} vs LR(1) {o:?} on {w:?} for {g}"));
+                break;
+            }
+        }
+    }
+    // the Kiki grammar as data: 42 productions, 17 terminals, LR(1), and the repository examples are sentences
+    let g = crate::rkiki::KikiGrammar::new();
+    match build_reference(&g.cfg, 10_000) {
+        None => fails.push("no reference for the Kiki grammar".into()),
+        Some(r) => {
+            if r.lr1_conflict || r.lalr_conflict {
+                fails.push("the Kiki grammar must be LALR(1)".into());
+            }
+            for (path, src) in crate::rkiki::repo_example_sources() {
+                match crate::rlex::lex(&src) {
+                    Err(e) => fails.push(format!("R-lex rejects {path}: {e:?}")),
+                    Ok(t) => {
+                        let kinds: Vec<crate::rlex::K> = t.iter().map(|x| x.kind).collect();
+                        if crate::rkiki::lr_verdict(&g, &r, &kinds, None) != crate::rkiki::Verdict::Accept {
+                            fails.push(format!("R-kiki (LR) rejects {path}"));
+                        }
+                        match crate::rkiki::parse_tokens(&src, &t) {
+                            Err(e) => fails.push(format!("R-kiki (predictive) rejects {path} at {e:?}")),
+                            Ok(items) => {
+                                if !crate::rvalidate::violations(&items).is_empty() {
+                                    fails.push(format!("R-validate finds violations in {path}"));
+                                }
+                            }
+                        }
+                    }
+                }
+            }
+        }
+    }
+    // R-lex on documented examples
+    let lex_cases: [(&str, Result<usize, (usize, Option<char>)>); 10] = [
+        ("start Foo", Ok(2)),
+        ("$Comma: ()", Ok(4)),
+        ("a:::b", Ok(4)),
+        ("#[derive(Clone, Foo { target = Bar })] struct X", Ok(3)),
+        ("// only a comment", Ok(0)),
+        ("$start", Err((6, None))),
+        ("$$", Err((0, Some('$')))),
+        ("#[([)]]", Err((4, Some(')')))),
+        ("a / b", Err((2, Some('/')))),
+        ("x\u{a0}\u{2003}y é", Err((8, Some('é')))),
+    ];
+    for (text, exp) in lex_cases {
+        let got = crate::rlex::lex(text).map(|t| t.len()).map_err(|e| (e.index, e.ch));
+        if got != exp {
+            fails.push(format!("R-lex on {text:?}: {got:?}, expected {exp:?}"));
+        }
+    }
+    // get_grammar_hash rule
+    if crate::engines::text::model_grammar_hash("// a\r\n// @sha256 abc\r\nfn") != Some("abc") || crate::engines::text::model_grammar_hash("x\n// @sha256 abc").is_some() {
+        fails.push("model_grammar_hash".into());
+    }
+    fails
+}
+
 pub fn selftest() -> i32 {
-    0
+    let f = selftest_failures();
+    if f.is_empty() {
+        println!("selftest: all oracle self-tests passed");
+        0
+    } else {
+        for x in &f {
+            println!("selftest FAILED: {x}");
+        }
+        2
+    }
 }
